@@ -145,7 +145,7 @@ theorem step_new {s : Sess} (ok : SessOk s) (t : Nat) (io ca : Bool) (ht : 3 ≤
   have hold : ∀ x ∈ s.hs, ∀ hj, HT s.w.heap hj x.root →
       absN H' hj x.root = absN s.w.heap hj x.root ∧ reach H' hj x.root = reach s.w.heap hj x.root ∧ HT H' hj x.root :=
     fun x _ hj htj => frame_off so htj (by simp)
-  show SessOk ⟨⟨H', s.w.nextCreator + 1⟩, s.hs ++ [⟨t, s.w.heap.size, 0, false, io, s.w.nextCreator, ca⟩]⟩ ∧ _
+  show SessOk ⟨⟨H', s.w.nextCreator + 1⟩, s.hs ++ [⟨t, s.w.heap.size, 0, false, io, s.w.nextCreator, ca, false⟩]⟩ ∧ _
   constructor
   · refine ⟨?_, ?_, ?_, ?_⟩
     · intro x hx
@@ -220,7 +220,7 @@ theorem step_new {s : Sess} (ok : SessOk s) (t : Nat) (io ca : Bool) (ht : 3 ≤
             rw [a2] at hx
             exact hlt (reach_lt t1 x hx)
           · omega
-  · show Sess.abs ⟨⟨H', s.w.nextCreator + 1⟩, s.hs ++ [⟨t, s.w.heap.size, 0, false, io, s.w.nextCreator, ca⟩]⟩ = _
+  · show Sess.abs ⟨⟨H', s.w.nextCreator + 1⟩, s.hs ++ [⟨t, s.w.heap.size, 0, false, io, s.w.nextCreator, ca, false⟩]⟩ = _
     simp only [Sess.abs, List.map_append, List.map_cons, List.map_nil]
     congr 1
     · apply List.map_congr_left
@@ -231,7 +231,7 @@ theorem step_new {s : Sess} (ok : SessOk s) (t : Nat) (io ca : Bool) (ht : 3 ≤
       rw [handle_abs_eq (w := ⟨H', s.w.nextCreator + 1⟩) a3 (by rw [a2]; exact t2), handle_abs_eq t1 t2, a1]
     · have hht : HT H' 0 s.w.heap.size := ⟨by simp [hsz], by rw [hnew]⟩
       simp only [Handle.toTree, Tree.empty]
-      rw [handle_abs_eq (w := ⟨H', s.w.nextCreator + 1⟩) (hd := ⟨t, s.w.heap.size, 0, false, io, s.w.nextCreator, ca⟩)
+      rw [handle_abs_eq (w := ⟨H', s.w.nextCreator + 1⟩) (hd := ⟨t, s.w.heap.size, 0, false, io, s.w.nextCreator, ca, false⟩)
         (h := 0) hht (by simp [reach])]
       simp [absN, hnew, N]
 
